@@ -24,7 +24,7 @@ import os, re, sys
 
 REPO = os.environ.get("VERIF_REPO", "/repo")
 VERIF = os.path.dirname(os.path.dirname(os.path.abspath(__file__)))
-OUT = os.path.join(VERIF, "lean", "DicomModel", "Gen", "PduCodes.lean")
+OUT = os.path.join(os.environ.get("VERIF_LEAN_DIR") or os.path.join(VERIF, "lean"), "DicomModel", "Gen", "PduCodes.lean")
 
 
 def die(msg):
